@@ -213,6 +213,9 @@ func init() {
 		}
 		want, err := strconv.ParseFloat(a[1], 64)
 		if err != nil {
+			if ne, ok := err.(*strconv.NumError); ok && ne.Err == strconv.ErrRange {
+				return "ok out-of-range"
+			}
 			return "FAIL bad-literal"
 		}
 		got, acc := c.X.Float64()
